@@ -97,6 +97,10 @@ impl DodecahedronProjection {
 
     /// Unprojects face coordinates to spherical coordinates using dodecahedron projection
     pub fn inverse(&mut self, face: Face, origin_id: OriginId) -> Result<Spherical, String> {
+        if (origin_id as usize) >= get_origins().len() {
+            return Err("Invalid origin ID".to_string());
+        }
+
         let polar = to_polar(face);
         let face_triangle_index = self.get_face_triangle_index(polar)?;
 
